@@ -31,6 +31,9 @@
 (*             lookup whose flag skips that glyph does nothing)?  OpenType   *)
 (*             is silent; both readings are accepted.                       *)
 (*   mfsBug    non-conformant reading used only to classify mismatches.      *)
+(*   mfp       Dev_MarkFilterPrecedence (LayoutCommon!Matches): a flag with   *)
+(*             markAttachmentType and useMarkFilteringSet; three readings     *)
+(*             accepted.                                                     *)
 (* Deterministic choices where OpenType is silent (documented, single        *)
 (* reading): Dev_SeqIdxOnCurrentRun, Dev_AdvanceAfterContext,                *)
 (* Dev_LigaSkippedNotRevisited, Dev_NestedAlternateIsFirst.                  *)
@@ -148,7 +151,9 @@ FirstRev(ctx, L, run, i, s) ==                                  \* <<new glyph>>
 ReverseAt(ctx, L, run, i) ==
   LET r == FirstRev(ctx, L, run, i, 1) IN
   IF r = <<>> THEN [hit |-> FALSE, run |-> run, tag |-> "rev-miss"]
-  ELSE [hit |-> TRUE, run |-> [run EXCEPT ![i].g = r[1]], tag |-> "rev"]
+  ELSE [hit |-> TRUE, run |-> [run EXCEPT ![i].g = r[1]],
+        tag |-> IF Len(L.subs) > 1 /\ FirstRev(ctx, [L EXCEPT !.subs = <<L.subs[1]>>], run, i, 1) = <<>>
+                THEN "rev-later-subtable" ELSE "rev"]
 
 ---------------------------------------------------------------------------
 (* Types 5 and 6: (chained) context with nested lookups *)
@@ -207,6 +212,9 @@ ContextAt(ctx, L, run, i, depth) ==                             \* [hit, run, ad
                  \cup (IF r.back # <<>> THEN {"context-backtrack"} ELSE {})
                  \cup (IF r.look # <<>> THEN {"context-lookahead"} ELSE {})
                  \cup (IF Len(r.recs) > 1 THEN {"context-many-records"} ELSE {})
+                 \cup (IF r.recs = <<>> THEN {"context-ignore-rule"} ELSE {})
+                 \cup (IF Len(L.subs) > 1 /\ FirstRule(ctx, L, run, i, <<L.subs[1]>>, chain, 1) = <<>>
+                       THEN {"context-later-subtable"} ELSE {})
                  \cup (IF a.d # 0 THEN {"context-length-change"} ELSE {})
                  \cup (IF len + a.d <= 0 THEN {"context-shrunk-to-nothing"} ELSE {})
                  \cup (IF len + a.d < 0 THEN {"context-shrunk-below-zero"} ELSE {})]
@@ -286,9 +294,19 @@ ObsRun(gdef, run) ==
   [k \in 1 .. Len(run) |-> IF GlyphClass(gdef, run[k].g) = ClassMark THEN run[k] ELSE [run[k] EXCEPT !.p = 0]]
 ObsSteps(gdef, steps) == [k \in 1 .. Len(steps) |-> ObsRun(gdef, steps[k])]
 
-DevStd     == [refilter |-> FALSE, mfsBug |-> FALSE]
-DevChoices == {[refilter |-> b, mfsBug |-> FALSE] : b \in BOOLEAN}      \* the conformant readings
-DevMfsBug  == [refilter |-> FALSE, mfsBug |-> TRUE]                    \* known non-conformant reading
+DevStd     == [refilter |-> FALSE, mfsBug |-> FALSE, mfp |-> "att"]
+\* the conformant readings
+DevChoices == {[refilter |-> b, mfsBug |-> FALSE, mfp |-> m] : b \in BOOLEAN, m \in {"att", "mfs", "both"}}
+DevMfsBug  == [refilter |-> FALSE, mfsBug |-> TRUE, mfp |-> "att"]     \* known non-conformant reading
+
+\* the readings that can make a difference for a program: Dev_NestedSeqIdxFlag needs a context lookup,
+\* Dev_MarkFilterPrecedence a flag with both mark filters
+ProgHasNested(prog) == \E q \in 1 .. Len(prog.lookups) : EffType(prog.lookups[q]) \in {5, 6}
+ProgHasBothFilters(prog) == \E q \in 1 .. Len(prog.lookups) : BothMarkFilters(prog.lookups[q])
+DevChoicesFor(prog) ==
+  {[refilter |-> b, mfsBug |-> FALSE, mfp |-> m] :
+     b \in (IF ProgHasNested(prog) THEN BOOLEAN ELSE {FALSE}),
+     m \in (IF ProgHasBothFilters(prog) THEN {"att", "mfs", "both"} ELSE {"att"})}
 
 ---------------------------------------------------------------------------
 (* Well-formed programs: what "expressible in GSUB" means for this model    *)
